@@ -26,9 +26,9 @@ ASSUMPTIONS = [
     "weights compared at 1e-8 + 50*eps*1e6/extent (fixed far-point radius) + 4*eps*M^2/(d_min*extent) (conditioning of circumcentres for coordinate magnitude M and smallest sensor separation d_min); invariances at 1e-7 + 4x that",
 ]
 NOT_REACHED = ["fewer than four sensors inside the boundary", "coordinates beyond 1e4 x the array extent"]
-BUDGET = {"quick": dict(cases=800, seconds=60, shards=4),
+BUDGET = {"quick": dict(cases=2000, seconds=60, shards=4),
           "thorough": dict(cases=160000, seconds=600, shards=16)}
-REQUIRED = ["mon:weights-equal-area-fractions", "mon:weights-nonnegative-sum-to-one", "mon:retained-indices",
+REQUIRED = ["mon:reused-object-equals-fresh-object", "mon:weights-equal-area-fractions", "mon:weights-nonnegative-sum-to-one", "mon:retained-indices",
             "mon:permutation-translation-scaling-invariant", "mon:montecarlo-weighted-statistics",
             "mon:montecarlo-reproducible", "mon:montecarlo-weight-scale-invariant", "mon:montecarlo-zero-spread-closed-form"]
 
@@ -208,4 +208,53 @@ def fam_montecarlo(ctx, rng):
     ctx.state([dg, ds, N, zero])
 
 
-FAMILIES = [("sensor-layout", fam_layout), ("monte-carlo", fam_montecarlo)]
+def fam_object_reuse(ctx, rng):
+    """ONE HvsrSpatial instance asked for several boundaries in a row (wide / tight / shifted ones that retain different
+    sensors), spatial_weights and bounded_voronoi interleaved, coordinates reassigned: every answer must be the one a
+    fresh object gives (and the model's)."""
+    import hvsrpy
+    boundary, hk = gen_boundary(rng)
+    pts, cls = gen_sensors(rng, boundary)
+    obj = hvsrpy.HvsrSpatial(pts)
+    seq = []
+    for step in range(int(rng.integers(2, 6))):
+        kind = str(rng.choice(["same", "tight", "wide", "shifted", "new-coordinates"]))
+        c = MV.convex_hull(boundary).mean(axis=0)
+        if kind == "tight":
+            B = c + (boundary - c) * float(rng.uniform(0.35, 0.8))
+        elif kind == "wide":
+            B = c + (boundary - c) * float(rng.uniform(1.2, 3.0))
+        elif kind == "shifted":
+            B = boundary + rng.uniform(-0.4, 0.4, 2)
+        else:
+            B = boundary
+        if kind == "new-coordinates":
+            pts = pts + rng.normal(0, 0.03, pts.shape)
+            obj.coordinates = np.array(pts)
+        want, idx, amb = MV.weights(pts, B)
+        if amb or len(idx) < 4:
+            ctx.count("ambiguous_skipped" if amb else "fewer_than_four_inside")
+            continue
+        seq.append(kind)
+        info = dict(layout=cls, n=int(len(pts)), step=step, boundary_kind=kind, sequence=list(seq))
+        try:
+            if rng.random() < 0.5:
+                w, ind = obj.spatial_weights(B)
+                w = np.asarray(w, float)
+            else:
+                regs, ind = obj.bounded_voronoi(B)
+                w = np.array([abs(MV.area(np.asarray(r))) for r in regs]) / MV.area(MV.convex_hull(B))
+        except Exception as e:
+            ctx.check(False, "reused-object-equals-fresh-object", f"a reused HvsrSpatial raised {e!r}", **info)
+            continue
+        ctx.count("spatial_weight_calls")
+        ok = list(ind) == list(idx) and w.shape == want.shape and bool(np.all(np.abs(w - want) <= 1e-7))
+        ctx.check(ok, "reused-object-equals-fresh-object", "a reused HvsrSpatial object gives weights / indices that are not the "
+                  "nearest-retained-sensor area fractions for the boundary it was just given", indices=list(ind)[:12],
+                  expected_indices=idx[:12], n_weights=int(w.size), **info)
+    ctx.describe(layout=cls, n=int(len(pts)), sequence=seq)
+    if len(set(seq)) >= 2:
+        ctx.nontrivial(["reuse", cls, len(pts), seq])
+
+
+FAMILIES = [("sensor-layout", fam_layout), ("monte-carlo", fam_montecarlo), ("object-reuse-history", fam_object_reuse)]
